@@ -107,6 +107,11 @@ class PrintStatementRule(MultiLanguageLintRule):  # thailint: ignore[srp]
         if "print-statements" in metadata:
             return load_linter_config(context, "print-statements", PrintStatementConfig)
 
+        # The linter was renamed to improper-logging; its docs configure it under that name
+        for key in ("improper_logging", "improper-logging"):
+            if key in metadata:
+                return load_linter_config(context, key, PrintStatementConfig)
+
         return None
 
     def _is_file_ignored(self, context: BaseLintContext, config: PrintStatementConfig) -> bool:
